@@ -460,13 +460,16 @@ func init() {
 			"non-trivial = fit needed >= 2 pieces, or polynomial with a repeated root / tiny leading coefficient",
 		MinNontrivial:    counts(4000, 60000),
 		DeathIsViolation: true,
-		Required:         []string{"fits", "multi_piece_fits", "poly:three-real", "poly:double-root", "poly:triple-root", "poly:tiny-cubic-coefficient", "poly:one-real+complex-pair"},
+		Required:         []string{"captured_fits", "fits", "multi_piece_fits", "poly:three-real", "poly:double-root", "poly:triple-root", "poly:tiny-cubic-coefficient", "poly:one-real+complex-pair"},
 		Assumptions: []string{
 			"well-formed corridors as in C19; only paths with >= 3 points are fitted (phase 5 does not call the fitter otherwise)",
 			"double roots (tangency without sign change) are not demanded from the root finder, but what is returned near them must be a root",
 			"for a leading coefficient |a| < 1e-7 the solver documents that the term is dropped: the tolerance is widened by the first-order effect 2|a||r|^3/|p'(r)| and the extra far-away root is not demanded",
 		},
 		Gen: func(seed int64, tier string, idx int) *core.Case {
+			if idx%20 == 18 {
+				return phase5Case("C20", seed, tier, idx)
+			}
 			if idx%2 == 0 {
 				c := corridorCase("C20", seed, tier, idx)
 				return c
@@ -483,6 +486,9 @@ func init() {
 					r.Sample = map[string]any{"index": c.Index, "polynomial": c.Poly, "returned_roots": got}
 				}
 				return r
+			}
+			if c.Corridor == nil {
+				return judgeCaptured("C20", c, true)
 			}
 			co := c.Corridor
 			if err := model.WellFormed(co.Rects, co.Start, co.End); err != nil {
